@@ -178,7 +178,42 @@ def gen_c12(tier, rng):
             for v in values_for(rng, f, "quick")[:: 1 if f[4] > 8 else 17]:
                 ops.append("fld %s default set %s %d" % (cname, f[0], v))
         cases.append(Case("c12w", ops, nontrivial=True, tags=(cname, "write"), meta={"cls": cname}))
+        # the same on objects that already carry data (all ones / random): the field still lands at its table position and a SECOND
+        # write of the same field replaces the first completely (a setter that clears with the wrong mask only shows here)
+        ops = []
+        for tag, bg in backgrounds(rng, cname):
+            if tag == "zero":
+                continue
+            for f in fields:
+                vals = layout.in_range_values(f)
+                top = (1 << f[4]) - 1
+                cands = vals if vals else [top, 0, 1, top >> 1, (top >> 1) + 1, rng.getrandbits(f[4])]
+                if len(f) > 7 and f[7] == "float":
+                    cands = [0x3F800000, 0, 0x40490FDB]
+                v1, v2 = rng.choice(cands), rng.choice(cands)
+                ops.append("fld %s %s set %s %d" % (cname, bg.hex(), f[0], v1))
+                ops.append("fld %s %s set %s %d set %s %d" % (cname, bg.hex(), f[0], v1, f[0], v2))
+                ops.append("fld %s default set %s %d set %s %d" % (cname, f[0], cands[0], f[0], cands[1 % len(cands)]))
+        cases.append(Case("c12b", ops, nontrivial=True, tags=(cname, "write-on-data"), meta={"cls": cname}))
+    # variable-length parts (stream-id list with its pad byte, strings with NUL and pad, vendor data, data blocks): laid out by the
+    # builders, on fresh objects and on objects that held other data — the C13 cases, judged here by the same layout predicate
+    from . import gen_bld
+    for c in gen_bld.gen_c13(tier, rng):
+        if "max-count" in c.tags:
+            continue
+        c.tags = tuple(c.tags) + ("builder-layout",)
+        cases.append(c)
     return cases
+
+
+def pred_c12(case, impl, model, ctx):
+    """fixed header fields against the layout table (pred_c11); builder cases against the variable-part layout (pred_c13)"""
+    if case.meta.get("cls") is not None:
+        return pred_c11(case, impl, model, ctx)
+    if case.meta.get("kind") is not None:
+        from . import gen_bld
+        return gen_bld.pred_c13(case, impl, model, ctx)
+    return None
 
 
 def lean_bytes(b):
